@@ -27,6 +27,10 @@ namespace alpha { class Item { public: int magic; Item() : magic(0xa1fa) {} ~Ite
 namespace beta { class Item { public: int magic; double pad[4]; Item() : magic(0xbe7a) {} ~Item() { if (magic != 0xbe7a) wrong_destructor("beta::Item"); magic = 0; }
                                int get() const { return magic == 0xbe7a ? 2 : -777; } };
                  Item *makeItem(); }
+class Stamp { public: int magic, v; Stamp() : magic(0x57a), v(0) {} Stamp(int vv) : magic(0x57a), v(vv) {} Stamp(const Stamp &o) : magic(0x57a), v(o.v) {} ~Stamp() { magic = 0; }
+              int get() const { return magic == 0x57a ? v : -777; } };
+Stamp *makeStamp(int v);
+Stamp currentStamp();
 Obj *make(int v);
 Obj *borrow(int i);
 Other *makeOther();
